@@ -9,7 +9,7 @@ from . import common
 
 NAME = "U-dashd"
 TOOL = "verus"
-PROPS = ["C08", "C16"]
+PROPS = ["C08", "C16", "C06"]
 RLIMIT = 50
 TRUSTED = ["verus 0.2026.09.13 + z3", "str::splitn(n, c) / str::split(c): the pieces between occurrences of c, at most n of them, the last one being the unsplit remainder (specification of the shim iterator, from the std documentation)",
            "vstd: Option::unwrap, Option::unwrap_or"]
@@ -37,13 +37,16 @@ impl<'a> Pieces<'a> {
 #[verifier::external_body] pub fn str_splitn<'a>(s: &'a String, n: usize, c: char) -> (r: Pieces<'a>) ensures r.rest@ == Some(s@), r.limit@ == n, r.c@ == c { unimplemented!() }
 #[verifier::external_body] pub fn str_split<'a>(s: &'a String, c: char) -> (r: Pieces<'a>) ensures r.rest@ == Some(s@), r.limit@ == -1, r.c@ == c { unimplemented!() }
 pub struct Error { pub e: u8 }
+#[verifier::external_body] pub fn str_contains_char(s: &str, c: char) -> (r: bool) ensures r == occurs(s@, c) { s.contains(c) }
 pub uninterp spec fn is_ident(s: Seq<char>) -> bool;
 #[verifier::external_body] pub fn is_macro_name(s: &str) -> (r: bool) ensures r == is_ident(s@) { unimplemented!() }
 // the preprocessor context: what was defined last
 pub struct Context { pub name: Ghost<Seq<char>>, pub value: Ghost<Seq<char>>, pub n: Ghost<int> }
 impl Context {
     // the name becomes part of a regular expression (`\\bNAME\\b`, unwrapped): it has to be an identifier
+    // the value is written on one line of the preprocessed text: a line break in it would leave the line table short (a panic when an error is located)
     #[verifier::external_body] pub fn define(&mut self, name: &str, value: &str) requires is_ident(name@), //@ C16,C08:dash-d-name-is-an-identifier
+            !occurs(value@, '\\n'), //@ C16,C06:dash-d-value-has-no-line-break
         ensures final(self).name@ == name@, final(self).value@ == value@, final(self).n@ == old(self).n@ + 1 { unimplemented!() }
 }
 """
@@ -55,6 +58,7 @@ def candidates(f):
                                   ("N=3", "r = N;", 3, "plain value"), ("FLAG", "r = FLAG;", 1, "no value")):
         out.append({"source": "unsigned char r;\nvoid main() { %s }\n" % body, "args": ["-O0", "-D", opt], "expect": {"panic": False},
                     "simulate": {"init": {}, "expect": {"r": want}, "stack_empty": True}, "contract_only": True, "note": "-D %s: %s" % (opt, note)})
+    out.append({"source": "NL\nNL\nvoid main() { x = 1; }\n", "args": ["-O0", "-D", "NL=\n\n\n"], "expect": {"panic": False}, "contract_only": True, "note": "-D value with line breaks, then an error to locate"})
     return out
 
 
@@ -74,7 +78,8 @@ def build(repo):
     c = f.cut_span(f.text.index("\n", ob) + 1, cb, "compile(): body of the loop over args.defines (R8)")
     c.sub(r"\b%s\.splitn\((\d+), ('.')\)" % var, r"str_splitn(%s, \1, \2)" % var, "R15 str::splitn(n, char) -> shim iterator", expect=(0, 1))
     c.sub(r"\b%s\.split\(('.')\)" % var, r"str_split(%s, \1)" % var, "R15 str::split(char) -> shim iterator", expect=(0, 1))
-    c.sub(r"return Err\(Error::Configuration \{(?:[^}\"]|\"[^\"]*\")*\}\);", "return Err(Error { e: 0 });", "R1 the error value -> any error", expect=(0, 2))
+    c.sub(r"\b(\w+)\.contains\(('(?:\\.|[^'\\])')\)", r"str_contains_char(\1, \2)", "R15 str::contains(char) -> shim", expect=(0, 2))
+    c.sub(r"return Err\(Error::Configuration \{(?:[^}\"]|\"[^\"]*\")*\}\);", "return Err(Error { e: 0 });", "R1 the error value -> any error", expect=(0, 4))
     if re.search(r"\b%s\.\w+\(" % var, c.text):
         raise Undecided("compile(): the option text is used through a method outside the unit's shims: %r" % re.search(r"\b%s\.\w+\(" % var, c.text).group(0))
     fn = """
